@@ -14,9 +14,9 @@ Modelled code = `/repo` + the proposed fixes D7a-D7e (`/verif/proposed_fixes`):
   without a route the answer is `False` (was: `KeyRouteNotFoundStoreException`, a metadata dictionary),
 * `get_metadata` of a parent of a mount point that the default store does not have = default directory metadata.
 
-Not repaired, modelled as it is: `keys()` does not list the parents of mount points; a recursive
-`removedir` reaching a mount point deletes what is below and *then* raises (the model reports the error
-and, like every failing operation, keeps the state — `Mt.removedirX` returns the state actually left behind).
+Also repaired later (D7f): `keys()` lists the parents of mount points (`mountParents`, appended when no store listed them).
+Not repaired, modelled as it is: a recursive `removedir` reaching a mount point deletes what is below and *then* raises (the model
+reports the error and, like every failing operation, keeps the state — `Mt.removedirX` returns the state actually left behind).
 -/
 import LiquerModel.StoreCore
 
